@@ -388,7 +388,12 @@ func Worker(args []string) {
 	name := args[1]
 	from, _ := strconv.Atoi(args[2])
 	to, _ := strconv.Atoi(args[3])
-	debug.SetMaxStack(32 << 20)
+	if name != "nesting" {
+		// infinite recursion dies faster; no finite recursion of these spaces comes near 32 MB.
+		// The nesting space keeps Go's default limit (1 GB): only what would kill a real
+		// embedding process is a finding.
+		debug.SetMaxStack(32 << 20)
+	}
 	debug.SetGCPercent(400)
 	sp := spaceByName(name, thorough)
 	out := os.Stdout
@@ -606,7 +611,11 @@ func firstLines(s string, n int) string {
 // runWorker runs one child over [from,to) and reports how far it got.
 func runWorker(self, tier, name string, from, to int) (last int, done bool, stderr string, fs []finding, hung bool) {
 	last = from - 1
-	cmd := exec.Command("/bin/sh", "-c", fmt.Sprintf("ulimit -v 3000000; exec %s c03-worker %s %s %d %d", self, tier, name, from, to))
+	limit := 3000000
+	if name == "nesting" {
+		limit = 14000000
+	}
+	cmd := exec.Command("/bin/sh", "-c", fmt.Sprintf("ulimit -v %d; exec %s c03-worker %s %s %d %d", limit, self, tier, name, from, to))
 	cmd.Env = append(os.Environ(), "GOMAXPROCS=2")
 	pipe, _ := cmd.StdoutPipe()
 	var errb strings.Builder
@@ -639,7 +648,11 @@ func runWorker(self, tier, name string, from, to int) (last int, done bool, stde
 		}
 		close(finished)
 	}()
-	timer := time.NewTimer(60 * time.Second)
+	window := 60 * time.Second
+	if name == "nesting" {
+		window = 300 * time.Second
+	}
+	timer := time.NewTimer(window)
 	for {
 		select {
 		case <-progress:
@@ -649,7 +662,7 @@ func runWorker(self, tier, name string, from, to int) (last int, done bool, stde
 				default:
 				}
 			}
-			timer.Reset(60 * time.Second)
+			timer.Reset(window)
 		case <-finished:
 			cmd.Wait()
 			return last, done, errb.String(), fs, false
